@@ -642,6 +642,10 @@ func Chain(run *hx.Run, r *hx.Rng, kinds []string, maxDepth int) {
 			run.Count("lap:rational-model")
 			run.Add(lc)
 		}
+		if uc, ok := UnitCase(StepDesc{Ins: []Desc{d}, Op: o}); ok && ValueOracle {
+			run.Count("unit:rational-test")
+			run.Add(uc)
+		}
 		return
 	}
 	switch r.Intn(10) {
@@ -741,6 +745,10 @@ func Chain(run *hx.Run, r *hx.Rng, kinds []string, maxDepth int) {
 				run.Count("lap:rational-model")
 				run.Add(lc)
 			}
+			if uc, ok := UnitCase(sd); ok && ValueOracle {
+				run.Count("unit:rational-test")
+				run.Add(uc)
+			}
 			return
 		}
 		c, outs, class := OpCase(sd)
@@ -829,6 +837,14 @@ func Replay(run *hx.Run, kind string, raw json.RawMessage) bool {
 		return ReplayKeep(run, raw)
 	case "tile":
 		return ReplayTile(run, raw)
+	case "unit":
+		var sd StepDesc
+		if json.Unmarshal(raw, &sd) != nil {
+			return false
+		}
+		if uc, ok := UnitCase(sd); ok {
+			run.Add(uc)
+		}
 	default:
 		return false
 	}
